@@ -154,7 +154,7 @@ def generate(seed, tier, batch):
     tape = {"%d:%d" % (m, kk): rnd(r, -1, 1) for m in range(n) for kk in range(12)}
     order = r.choice([["orig", "opt", "copt"], ["opt", "orig", "copt"], ["copt", "opt", "orig"], ["opt", "copt", "orig", "opt"]])
     return {"backend": backend, "n": n, "ops": [o for o in ops if o["op"] != "BARRIER"], "tape": tape, "order": order, "cutoff": 8,
-            "reopt": r.random() < 0.4, "segs": [], "how": {}}
+            "reopt": r.random() < 0.4, "segs": [], "how": {}, "foreign_first": r.random() < 0.3}
 
 
 def circ_sig(circ):
@@ -175,6 +175,24 @@ def execute(script, w):
     opts = {"cutoff_dim": script["cutoff"]} if backend == "fock" else {}
     with simenv:
         simenv.rng.handler = tape
+        if script.get("foreign_first"):
+            # another program of the same shape (dagger flags toggled, first parameters negated) was optimised and compiled earlier in the
+            # process: nothing the optimiser or the merge rules may remember from it can be allowed to show in the observed program
+            w.fault("foreign_activity:optimize_similar_program")
+            fops = []
+            for o in script["ops"]:
+                o2 = dict(o)
+                if o2.get("p") and isinstance(o2["p"][0], (int, float)) and o2["op"] not in ("LossChannel", "ThermalLossChannel", "Thermal", "Coherent", "Fock"):
+                    o2["p"] = [-o2["p"][0]] + list(o2["p"][1:])
+                if o2["op"] in ("Dgate", "Xgate", "Zgate", "Sgate", "Pgate", "Rgate", "Kgate", "Vgate"):
+                    o2["dag"] = not o2.get("dag", False)
+                fops.append(o2)
+            try:
+                fprog = build_program({"n": script["n"], "ops": fops})
+                fprog.optimize()
+                fprog.compile(compiler=backend, optimize=True)
+            except Exception as ex:  # noqa
+                w.log("foreign_error", exc=type(ex).__name__, msg=str(ex)[:200])
         prog = build_program({"n": script["n"], "ops": script["ops"]})
         fp0 = program_fp(prog)
         w.step("optimize")
